@@ -15,6 +15,7 @@ import (
 
 	"github.com/tetratelabs/wazero"
 	"github.com/tetratelabs/wazero/api"
+	exptable "github.com/tetratelabs/wazero/experimental/table"
 	"github.com/tetratelabs/wazero/experimental"
 	"github.com/tetratelabs/wazero/internal/wasm"
 	"github.com/tetratelabs/wazero/internal/wasmruntime"
@@ -1275,6 +1276,61 @@ func auxRun(engine string, bin []byte) (res string) {
 	return fmt.Sprint("ok, host function saw ", got)
 }
 
+func auxStartRun(engine string, bin []byte) (res string) {
+	defer func() {
+		if e := recover(); e != nil {
+			res = fmt.Sprint("go panic: ", e)
+		}
+	}()
+	ctx := context.Background()
+	rc := wazero.NewRuntimeConfigInterpreter()
+	if engine == "compiler" {
+		rc = wazero.NewRuntimeConfigCompiler()
+	}
+	rt := wazero.NewRuntimeWithConfig(ctx, rc)
+	defer rt.Close(ctx)
+	ran := 0
+	if _, err := rt.NewHostModuleBuilder("env").NewFunctionBuilder().WithGoModuleFunction(api.GoModuleFunc(func(_ context.Context, _ api.Module, _ []uint64) {
+		ran++
+	}), nil, nil).Export("h0").Instantiate(ctx); err != nil {
+		return "host module: " + err.Error()
+	}
+	if _, err := rt.Instantiate(ctx, bin); err != nil {
+		return "instantiate: " + err.Error()
+	}
+	return fmt.Sprint("ok, start function ran ", ran, " time(s)")
+}
+
+func auxLookupRun(engine string, modA, modB []byte) (res string) {
+	defer func() {
+		if e := recover(); e != nil {
+			res = fmt.Sprint("go panic: ", e)
+		}
+	}()
+	ctx := context.Background()
+	rc := wazero.NewRuntimeConfigInterpreter()
+	if engine == "compiler" {
+		rc = wazero.NewRuntimeConfigCompiler()
+	}
+	rt := wazero.NewRuntimeWithConfig(ctx, rc)
+	defer rt.Close(ctx)
+	if _, err := rt.InstantiateWithConfig(ctx, modA, wazero.NewModuleConfig().WithName("A")); err != nil {
+		return "instantiate A: " + err.Error()
+	}
+	b, err := rt.InstantiateWithConfig(ctx, modB, wazero.NewModuleConfig().WithName("B"))
+	if err != nil {
+		return "instantiate B: " + err.Error()
+	}
+	out, err := exptable.LookupFunction(b, 0, 0, nil, []api.ValueType{api.ValueTypeI32}).Call(ctx)
+	if err != nil {
+		return "call: " + err.Error()
+	}
+	if out[0] != 2 {
+		return fmt.Sprint("wrong function: returned ", out[0], ", A.f1 returns 2")
+	}
+	return "ok, A.f1"
+}
+
 func main() {
 	seed := flag.Uint64("seed", 1, "")
 	n := flag.Int("n", 100, "")
@@ -1336,4 +1392,6 @@ func main() {
 		out.Emit(cs)
 	}
 	out.Emit(auxReexportedHost())
+	out.Emit(auxStartHost())
+	out.Emit(auxLookupImported())
 }
